@@ -145,8 +145,13 @@ def subsetsOf {α : Type} : List α → List (List α)
     callback ran again) or no step at all; both are behaviours of the code, the
     observed Put sequence tells which one happened.  Every state change still
     goes through `step`. -/
-def withPending (ds : DS) (want : String) (run : DS → DS × String) : DS × String :=
+def withPending (ds : DS) (want : String) (keep : Bool) (run : DS → DS × String) : DS × String :=
   if ds.pending.isEmpty then run ds else
+  -- a refused commit shows only a prefix of the Put sequence, which may not reach the place
+  -- where a candidate would matter: the candidates stay undecided until a commit completes
+  -- (re-applying one is idempotent: the insert is a no-op, the reference exists already)
+  let fin := fun (r : DS × String) => if keep then ({ r.1 with pending := ds.pending }, r.2) else r
+  fin <|
   let base := { ds with pending := [] }
   let cands := if ds.pending.length ≤ 8 then subsetsOf ds.pending else [[], ds.pending]
   let tryOne := fun (sub : List (Hash × CNode × Hash × Hash)) =>
@@ -184,19 +189,19 @@ def lineStep (ds : DS) (line : String) : DS × String :=
     | _, _ => (ds, "bad-op")
   | ["commit", root, obs] =>
     match hashOf? root, batches? obs with
-    | some r, some bs => withPending ds ("ok " ++ showBatches bs) fun d => doCommitStrict d r none bs []
+    | some r, some bs => withPending ds ("ok " ++ showBatches bs) false fun d => doCommitStrict d r none bs []
     | _, _ => (ds, "bad-op")
   | ["fail", root, k, obs, refused] =>
     match hashOf? root, k.toNat?, batches? obs, hashList? refused with
-    | some r, some k, some bs, some rf => withPending ds ("err " ++ showBatches bs) fun d => doCommitStrict d r (some k) bs rf
+    | some r, some k, some bs, some rf => withPending ds ("err " ++ showBatches bs) true fun d => doCommitStrict d r (some k) bs rf
     | _, _, _, _ => (ds, "bad-op")
   | ["commit?", root, obs] =>
     match hashOf? root, batches? obs with
-    | some r, some bs => withPending ds ("ok " ++ showBatches bs) fun d => doCommitLoose d r none bs []
+    | some r, some bs => withPending ds ("ok " ++ showBatches bs) false fun d => doCommitLoose d r none bs []
     | _, _ => (ds, "bad-op")
   | ["fail?", root, k, obs, refused] =>
     match hashOf? root, k.toNat?, batches? obs, hashList? refused with
-    | some r, some k, some bs, some rf => withPending ds ("err " ++ showBatches bs) fun d => doCommitLoose d r (some k) bs rf
+    | some r, some k, some bs, some rf => withPending ds ("err " ++ showBatches bs) true fun d => doCommitLoose d r (some k) bs rf
     | _, _, _, _ => (ds, "bad-op")
   | ["prefix", j, roots] =>
     match j.toNat?, hashList? roots with
